@@ -203,6 +203,10 @@ def drive(pid, tier, seed, workers=None):
 
     replay_paths = {}
     rdir = os.path.join(VERIF, "replays", pid)
+    if os.path.isdir(rdir):
+        for _f in os.listdir(rdir):
+            if f"-s{seed}-{tier}-" in _f:
+                os.remove(os.path.join(rdir, _f))
     for cls in new_classes:
         os.makedirs(rdir, exist_ok=True)
         v = by_cls[cls][0]
